@@ -68,7 +68,7 @@ var curatedFENs = []string{
 	"4k3/P6P/8/8/8/8/p6p/4K3 w - - 0 1",
 	"1n2k1n1/P6P/8/8/8/8/p6p/1N2K1N1 b - - 0 1",
 	"r1b1k3/1P6/8/8/8/8/6p1/3K1B1R b - - 0 1",
-	"8/8/8/8/8/2k5/1p6/K7 b - - 0 1",
+	"8/8/8/8/8/2k5/1p6/K7 w - - 0 1",
 	"7k/5Q2/6K1/8/8/8/8/8 b - - 0 1",
 	"7k/6Q1/6K1/8/8/8/8/8 b - - 0 1",
 	"k7/8/8/8/1q1K4/8/5q2/8 w - - 0 1",
@@ -77,7 +77,7 @@ var curatedFENs = []string{
 	"4k3/8/8/8/8/8/8/2B1KB2 w - - 0 1",
 	"4k3/8/8/8/8/8/3n4/4K3 w - - 0 1",
 	"4k3/8/8/8/8/8/3r4/4KB2 w - - 0 1",
-	"QQQQQQQQ/Q7/8/8/8/8/7k/K7 w - - 0 1",
+	"QQQQQQQQ/Q7/8/8/8/8/8/K6k b - - 0 1",
 	"3rk3/8/8/8/8/8/3R4/3K4 w - - 0 1",
 	"4k3/4r3/8/8/8/8/4N3/4K3 w - - 0 1",
 	"8/8/8/3k4/8/2nK4/8/8 w - - 0 1",
